@@ -2011,14 +2011,17 @@ impl Fs {
                     self.synced_entries.swap_remove(p);
                 }
                 PendingOp::Rename { from, to } => {
-                    if from.parent() == Some(path) {
-                        dir_modified = true;
-                        self.synced_entries.swap_remove(from);
-                    }
-                    if to.parent() == Some(path) {
-                        dir_modified = true;
-                        self.synced_entries.insert(to.clone());
-                    }
+                    // A rename is flushed as a whole by syncing either of
+                    // the two directories (the persisted inode moves below),
+                    // so both entries change together. Updating only the
+                    // entry under `path` lost a file renamed across
+                    // directories for good when the source directory was
+                    // synced first: the op was consumed, the new entry was
+                    // never recorded and a later sync of the destination
+                    // directory had nothing left to flush.
+                    dir_modified = true;
+                    self.synced_entries.swap_remove(from);
+                    self.synced_entries.insert(to.clone());
                 }
                 _ => {}
             }
